@@ -440,7 +440,7 @@ Definition step (st : state) (t : thr) : option (option label * state) :=
 
 (* ---- candidate threads, equality tests (for the trace acceptor) ----------- *)
 Definition sub_thrs (s : nat) (c : sub) : list thr :=
-  [TSub s; TClose s; TDrain s; TReq s; TRecv s; TRead s] ++ map (TReplay s) (seq 0 (length (rpend c))).
+  [TSub s; TClose s; TRecv s; TRead s; TDrain s; TReq s] ++ map (TReplay s) (seq 0 (length (rpend c))).
 
 Fixpoint flat_mapi {A B} (f : nat -> A -> list B) (i : nat) (l : list A) : list B :=
   match l with [] => [] | x :: r => f i x ++ flat_mapi f (S i) r end.
